@@ -1,1 +1,3 @@
 import Properties.C13
+import Properties.C09
+import Properties.C10
